@@ -316,6 +316,21 @@ def c27(tier, seed):
             steps += finish(2)
             mode = "latejoin"
         out.append({"name": f"C27-{mode}-{k}", "family": mode, "seed": seed * 41 + k, "frag": 64, "steps": steps})
+    # instance operations between the writes: unregister / dispose of an instance whose samples are still unacknowledged in the
+    # history, then write the instance again (the KEEP_LAST bookkeeping must survive the unregistration)
+    ni = 12 if tier == "quick" else 120
+    for k in range(ni):
+        depth = rng.choice([1, 1, 2])
+        blocking = rng.choice([30, 100])
+        steps = setup(q(hist=depth, max_blocking_ms=blocking), [q(hist=0)])
+        steps.append({"do": "partition", "from_part": 1, "to_part": 0})
+        steps += [{"do": "write", "w": 0, "i": 1, "len": 8} for _ in range(depth)]
+        steps.append({"do": rng.choice(["unregister", "unregister", "dispose"]), "w": 0, "i": 1, "len": 8})
+        steps += [{"do": "write", "w": 0, "i": 1, "len": 8} for _ in range(rng.randint(1, 3))]
+        if k % 2:
+            steps += [{"do": "unregister", "w": 0, "i": 1, "len": 8}, {"do": "write", "w": 0, "i": 1, "len": 8}]
+        steps += finish(1)
+        out.append({"name": f"C27-instops-{k}", "family": "instops", "seed": seed * 43 + k, "frag": 64, "steps": steps})
     return out
 
 
@@ -421,6 +436,35 @@ def c16(tier, seed):
         for w in range(nwriters):
             steps.append({"do": "pub_status", "w": w})
         out.append({"name": f"C16-{k}", "family": "hist", "seed": seed * 47 + k, "frag": 1344, "steps": steps, "max_steps": 8000000})
+    # deterministic families (independent of the seed)
+    # departure: the participant of the matched remote endpoint falls silent; after its lease both the matched list and the
+    # status of the local writer / reader must show the loss
+    for rel in ("RELIABLE", "BEST_EFFORT"):
+        for local in ("writer", "reader"):
+            steps = [{"do": "participant"}, {"do": "participant"}, {"do": "participant"}]
+            if local == "writer":
+                steps += [{"do": "create_writer", "part": 0, "qos": q(rel=rel)}, {"do": "create_reader", "part": 2, "qos": q(rel=rel)},
+                          {"do": "create_reader", "part": 1, "qos": q(rel=rel)}]
+            else:
+                steps += [{"do": "create_writer", "part": 2, "qos": q(rel=rel)}, {"do": "create_reader", "part": 0, "qos": q(rel=rel)},
+                          {"do": "create_writer", "part": 1, "qos": q(rel=rel)}]
+            obs = [{"do": "pub_status", "w": 0}] if local == "writer" else [{"do": "sub_status", "r": 0}]
+            steps += [{"do": "sleep", "ms": 1200}] + obs + [{"do": "silence_participant", "part": 2}, {"do": "sleep", "ms": 101500}, {"do": "sleep", "ms": 1200}] + obs
+            steps += [{"do": "sleep", "ms": 1500}] + obs
+            out.append({"name": f"C16-departure-{local}-{rel[:3]}", "family": "departure", "seed": 1, "frag": 1344, "steps": steps, "max_steps": 8000000})
+    # requalify: every history of three deadline values of one remote reader against a writer offering 2 s
+    dls = [None, 1000, 5000]
+    for a in dls:
+        for b in dls:
+            for c in dls:
+                if a == b or b == c:
+                    continue
+                steps = [{"do": "participant"}, {"do": "participant"}, {"do": "create_writer", "part": 0, "qos": q(deadline_ms=2000)},
+                         {"do": "create_reader", "part": 1, "qos": q(deadline_ms=a)}, {"do": "sleep", "ms": 1200}, {"do": "pub_status", "w": 0}, {"do": "sub_status", "r": 0},
+                         {"do": "set_reader_qos", "r": 0, "qos": q(deadline_ms=b)}, {"do": "sleep", "ms": 1200}, {"do": "pub_status", "w": 0}, {"do": "sub_status", "r": 0},
+                         {"do": "set_reader_qos", "r": 0, "qos": q(deadline_ms=c)}, {"do": "sleep", "ms": 1200}, {"do": "pub_status", "w": 0}, {"do": "sub_status", "r": 0},
+                         {"do": "sleep", "ms": 1500}, {"do": "pub_status", "w": 0}]
+                out.append({"name": f"C16-requalify-{a}-{b}-{c}", "family": "requalify", "seed": 1, "frag": 1344, "steps": steps, "max_steps": 8000000})
     return out
 
 
@@ -519,6 +563,27 @@ def c31(tier, seed):
             sc = dict(sc)
             sc["name"] = "C31-" + sc["name"]
             out.append(sc)
+    # a blocked KEEP_LAST write of a writer with a finite lifespan that is released by the worker itself when the
+    # silent reader's participant lease expires, long after the lifespan of the blocked sample
+    for k, (lifespan, depth) in enumerate([(300, 1), (1000, 1), (300, 2), (20, 1)]):
+        steps = setup(q(hist=depth, lifespan_ms=lifespan, max_blocking_ms=150000), [q()])
+        steps += [{"do": "silence_participant", "part": 1}]
+        steps += [{"do": "write", "w": 0, "i": 1, "len": 8} for _ in range(depth)]
+        steps += [{"do": "write", "w": 0, "i": 1, "len": 8, "during": [{"at_ms": 50000, "do": "trigger_obs"}]},
+                  {"do": "sleep", "ms": 3000}, {"do": "final"}]
+        out.append({"name": f"C31-blockedexpired-{k}", "family": "blockedexpired", "seed": seed, "frag": 1344, "steps": steps, "max_steps": 20000000})
+    # the same duties with a clock that moves between two reads inside one worker iteration (as every real clock does):
+    # an entry that is kept by the expiry sweep and already expired when the next sleep is computed must not yield a negative sleep
+    drifted = []
+    for sc in out:
+        if sc["family"] in ("silence", "lifespan", "blockedexpired") or sc["name"].startswith("C31-C29") or sc["name"].startswith("C31-C30"):
+            d = dict(sc)
+            d["name"] = sc["name"] + "-drift"
+            d["family"] = "drift"
+            d["drift_ns"] = [700, 300000, 100000][len(drifted) % 3]
+            drifted.append(d)
+    drifted.sort(key=lambda d: (0 if "blockedexpired" in d["name"] else 1 if "silence" in d["name"] else 2))
+    out += drifted[: 40 if tier == "quick" else 400]
     return out
 
 
